@@ -87,7 +87,11 @@ def dir_items(draw, depth, full, gopher_ok, toplevel, max_items=5, kinds=None, l
             # (names listed in a gophermap cannot contain TAB/CR/LF whatever the protocol: TAB separates its fields)
             item = {"kind": "map", "items": draw(dir_items(depth - 1, full, True, False, 3,
                                                            [k for k in kinds if k in ("txt", "html", "bin", "dir")])),
-                    "info": draw(st.lists(gen.text_line.map(str.strip), max_size=2))}
+                    "info": draw(st.lists(gen.text_line.map(str.strip), max_size=2)),
+                    "remote": draw(st.lists(st.sampled_from(["3Sorry, this has moved\t\terror.host\t1", "2Phone book\t\tcso.example.org\t105",
+                                                              "8Library catalogue\tguest\ttelnet.example.org\t23",
+                                                              "TMainframe\t\ttn.example.org\t23", "7Search the other site\t/v2/vs\tgopher.example.org\t70",
+                                                              "3Error with a selector\t/gone\tother.example.org\t70"]), max_size=2, unique=True))}
         elif kind == "mapfile":
             # a menu that is a file: '<name>.gophermap' (info lines and a link back to the root)
             name = name.split(".")[0] + ".gophermap"
@@ -186,6 +190,8 @@ def to_spec(items, prefix=""):
             for cname, cit in it["items"]:
                 t = "1" if cit["kind"] in ("dir", "map") else ("h" if cit["kind"] == "html" else ("9" if cit["kind"] == "bin" else "0"))
                 lines.append("%s%s\t%s" % (t, "Link to " + cname.replace("\t", " "), cname))
+            # lines for other hosts, of the item types that have no document or menu behind them (error, CSO, telnet, tn3270)
+            lines += list(it.get("remote", []))
             spec.append([p + "/gophermap", "f", "".join(l + "\n" for l in lines)])
         elif k == "mbox":
             spec.append([p, "f", mbox_text(it["subjects"])])
